@@ -134,10 +134,14 @@ type Spec struct {
 	// SeamEveryLayer puts a seam between all layers (default: bottom and top only).
 	SeamEveryLayer bool
 	SlowReads      bool
+	// TimeScale (0 fast, 1 medium, 2 slow) is chosen by the scenario swarm; the
+	// world itself does not interpret it.
+	TimeScale int
 }
 
 // World is one instance of the system ("process") on a directory.
 type World struct {
+	Name    string
 	Dir     string
 	Spec    Spec
 	Faults  *seams.Faults
@@ -213,7 +217,9 @@ func CopyTree(src, dst string) error {
 }
 
 // Fresh creates a new world in a fresh directory from the template database.
-func Fresh(spec Spec, f *seams.Faults) (*World, error) {
+// name labels the world's seams in the event log (it must not depend on
+// process-global counters, or logs would differ between a run and its replay).
+func Fresh(spec Spec, f *seams.Faults, name string) (*World, error) {
 	tpl, err := Template()
 	if err != nil {
 		return nil, err
@@ -225,11 +231,11 @@ func Fresh(spec Spec, f *seams.Faults) (*World, error) {
 	if err := CopyTree(tpl, dir); err != nil {
 		return nil, err
 	}
-	return Open(dir, spec, f)
+	return Open(dir, spec, f, name)
 }
 
 // Open builds the stack on an existing directory (used for restarts on a crash image).
-func Open(dir string, spec Spec, f *seams.Faults) (*World, error) {
+func Open(dir string, spec Spec, f *seams.Faults, name string) (*World, error) {
 	if f == nil {
 		f = seams.NewFaults()
 	}
@@ -239,7 +245,8 @@ func Open(dir string, spec Spec, f *seams.Faults) (*World, error) {
 		return nil, err
 	}
 	w.RawDB = raw
-	w.DB = seams.NewDB(raw, filepath.Base(dir), f)
+	w.Name = name
+	w.DB = seams.NewDB(raw, name, f)
 	ok := false
 	defer func() {
 		if !ok {
@@ -441,7 +448,7 @@ func (w *World) buildStack(name string, spec StackSpec) (partstore.PartStore, er
 			}
 			cur, err = compression.NewWithConfig(cur, compression.Config{SampleSize: l.SampleSize, Algorithm: alg, MaxCompressionRatio: l.MaxRatio})
 		case "tink", "tinkpq":
-			cur, err = tinkOver(fmt.Sprintf("%s/%s/%d", filepath.Base(w.Dir), name, i), l.Kind == "tinkpq", cur)
+			cur, err = tinkOver(fmt.Sprintf("%s/%s/%d", w.Name, name, i), l.Kind == "tinkpq", cur)
 		case "cache":
 			var c cachepkg.Cache
 			c, err = w.buildCache(name, l)
